@@ -202,6 +202,8 @@ func SimpleStmtString(s Stmt) string {
 		return "write(" + ExprString(x.P) + ", " + ExprString(x.D) + ", " + ExprString(x.A) + ")"
 	case Comment:
 		return "// " + x.Text
+	case Raw:
+		return x.Text
 	}
 	return ""
 }
